@@ -30,6 +30,21 @@ use std::{
 };
 
 pub type AbraInt = i64;
+
+/// Integer exponentiation for `^`: the exact power, or `None` if it does not fit in 64 bits.
+/// Exponents above `u32::MAX` must not be truncated (`2 ^ 4294967298` overflows, it is not `4`).
+pub(crate) fn checked_pow_int(a: AbraInt, b: AbraInt) -> Option<AbraInt> {
+    match u32::try_from(b) {
+        Ok(e) => a.checked_pow(e),
+        Err(_) if b < 0 => a.checked_pow(b as u32),
+        Err(_) => match a {
+            0 => Some(0),
+            1 => Some(1),
+            -1 => Some(if b % 2 == 0 { 1 } else { -1 }),
+            _ => None,
+        },
+    }
+}
 pub type AbraFloat = f64;
 
 const GC_PAUSE_FACTOR: usize = 2;
@@ -1734,15 +1749,26 @@ impl VmGreenThread {
                     return false;
                 }
                 let Some(c) = a.checked_div(b) else {
-                    self.error = Some(self.make_error(VmErrorKind::DivisionByZero).into());
+                    self.error = Some(
+                        self.make_error(VmErrorKind::IntegerOverflowUnderflow)
+                            .into(),
+                    );
                     return false;
                 };
                 self.store_offset_or_top(dest, c);
             }
             Instr::DivideIntImm(dest, reg1, imm) => {
                 let a = self.load_offset_or_top(reg1).get_int(self);
-                let Some(c) = a.checked_div(self.shared.int_constants[imm as usize]) else {
+                let b = self.shared.int_constants[imm as usize];
+                if b == 0 {
                     self.error = Some(self.make_error(VmErrorKind::DivisionByZero).into());
+                    return false;
+                }
+                let Some(c) = a.checked_div(b) else {
+                    self.error = Some(
+                        self.make_error(VmErrorKind::IntegerOverflowUnderflow)
+                            .into(),
+                    );
                     return false;
                 };
                 self.store_offset_or_top(dest, c);
@@ -1750,7 +1776,7 @@ impl VmGreenThread {
             Instr::PowerInt(dest, reg1, reg2) => {
                 let b = self.load_offset_or_top(reg2).get_int(self);
                 let a = self.load_offset_or_top(reg1).get_int(self);
-                let Some(c) = a.checked_pow(b as u32) else {
+                let Some(c) = checked_pow_int(a, b) else {
                     self.error = Some(
                         self.make_error(VmErrorKind::IntegerOverflowUnderflow)
                             .into(),
@@ -1761,7 +1787,7 @@ impl VmGreenThread {
             }
             Instr::PowerIntImm(dest, reg1, imm) => {
                 let a = self.load_offset_or_top(reg1).get_int(self);
-                let Some(c) = a.checked_pow(self.shared.int_constants[imm as usize] as u32) else {
+                let Some(c) = checked_pow_int(a, self.shared.int_constants[imm as usize]) else {
                     self.error = Some(
                         self.make_error(VmErrorKind::IntegerOverflowUnderflow)
                             .into(),
@@ -1773,19 +1799,22 @@ impl VmGreenThread {
             Instr::Modulo(dest, reg1, reg2) => {
                 let b = self.load_offset_or_top(reg2).get_int(self);
                 let a = self.load_offset_or_top(reg1).get_int(self);
-                let Some(c) = a.checked_rem_euclid(b) else {
+                if b == 0 {
                     self.error = Some(self.make_error(VmErrorKind::DivisionByZero).into());
                     return false;
-                };
+                }
+                // the Euclidean remainder always fits (`MIN % -1` is 0)
+                let c = a.wrapping_rem_euclid(b);
                 self.store_offset_or_top(dest, c);
             }
             Instr::ModuloImm(dest, reg1, imm) => {
                 let a = self.load_offset_or_top(reg1).get_int(self);
                 let b = self.shared.int_constants[imm as usize];
-                let Some(c) = a.checked_rem_euclid(b) else {
+                if b == 0 {
                     self.error = Some(self.make_error(VmErrorKind::DivisionByZero).into());
                     return false;
-                };
+                }
+                let c = a.wrapping_rem_euclid(b);
                 self.store_offset_or_top(dest, c);
             }
             Instr::BitXor(dest, reg1, reg2) => {
